@@ -127,6 +127,20 @@ class Filter(object):
         :func:`ds.apply_filter <dclab.rtdc_dataset.RTDCBase.apply_filter>`
         is called.
         """
+        try:
+            self._update(rtdc_ds=rtdc_ds, force=force)
+        except BaseException:
+            # A failed update (e.g. a polygon filter on a feature the
+            # dataset does not have, or a bad min/max value) must not
+            # leave filters behind that do not correspond to
+            # `self._old_config`: start from scratch next time.
+            self._box_filters.clear()
+            self._poly_filters.clear()
+            self._old_config = {}
+            raise
+
+    def _update(self, rtdc_ds, force=None):
+        """Actual implementation of :func:`Filter.update`"""
         if force is None:
             force = []
         # re-initialize important parameters
